@@ -32,6 +32,9 @@ type holderOps interface {
 	del(k string)
 	isArray() bool
 	length() int
+	// arrayOp acts on the member k when it is an array: hole (a[len+1] = 9), lenUp
+	// (a.length = len+2), lenDown (a.length = 1), named (a.name = 9), delIdx (delete a[0])
+	arrayOp(k string, what string)
 }
 
 type mutator struct {
@@ -52,7 +55,8 @@ func (m mutator) name() string {
 // only: the value is serialised afterwards).
 var siblingOps = []string{"setSibs", "objSibs", "delSibs", "delOne", "addSib"}
 var valueOps = []string{"valSet", "valDel", "valAdd"}
-var reviverOps = []string{"none", "setSelf", "delSelf", "lockSelf", "setSibs", "objSibs", "deepSibs", "lockSibs", "delSibs", "delOne", "addSib"}
+var reviverOps = []string{"none", "setSelf", "delSelf", "lockSelf", "setSibs", "objSibs", "deepSibs", "lockSibs", "delSibs", "delOne", "addSib",
+	"arrHoleSibs", "arrLenUpSibs", "arrLenDownSibs", "arrNamedSibs", "arrDelIdxSibs", "holeHolder"}
 var everyOps = []string{"setSelf", "delSelf", "lockSelf", "setSibs", "delSibs", "lockSibs"}
 
 // allMutators: the replacer / toJSON mutators (they return what they were given).
@@ -157,6 +161,16 @@ func applyMutation(op, key string, h holderOps) {
 		h.del(key)
 	case "lockSelf":
 		h.lock(key)
+	case "arrHoleSibs", "arrLenUpSibs", "arrLenDownSibs", "arrNamedSibs", "arrDelIdxSibs":
+		what := map[string]string{"arrHoleSibs": "hole", "arrLenUpSibs": "lenUp", "arrLenDownSibs": "lenDown", "arrNamedSibs": "named", "arrDelIdxSibs": "delIdx"}[op]
+		for _, k := range others() {
+			h.arrayOp(k, what)
+		}
+	case "holeHolder":
+		// a write beyond the end of the holder itself (an array): a hole and a new last element
+		if h.isArray() {
+			h.set(strconv.Itoa(h.length()+1), "100")
+		}
 	}
 }
 
@@ -199,6 +213,30 @@ func (h modelHolder) set(k string, what string) {
 		v = rj.ObjV(o)
 	}
 	h.o.Put(rj.K(k), v)
+}
+func (h modelHolder) arrayOp(k string, what string) {
+	p, ok := h.o.Props[rj.K(k)]
+	if !ok || p.V.Kind != rj.Object || p.V.O.Class != "Array" {
+		return
+	}
+	a := p.V.O
+	switch what {
+	case "hole":
+		a.Put(rj.IndexKey(a.Len+1), rj.Num(9))
+	case "lenUp":
+		a.Len += 2
+	case "lenDown":
+		for i := a.Len; i > 1; i-- {
+			a.Delete(rj.IndexKey(i - 1))
+		}
+		if a.Len > 1 {
+			a.Len = 1
+		}
+	case "named":
+		a.Put(rj.K("name"), rj.Num(9))
+	case "delIdx":
+		a.Delete(rj.IndexKey(0))
+	}
 }
 func (h modelHolder) lock(k string) { h.o.Lock(rj.K(k), rj.StrOf("frozen")) }
 func (h modelHolder) del(k string)  { h.o.Delete(rj.K(k)) }
@@ -279,6 +317,30 @@ func (h ottoHolder) set(k string, what string) {
 		v = o.Value()
 	}
 	h.v.Object().Set(k, v) //nolint:errcheck
+}
+func (h ottoHolder) arrayOp(k string, what string) {
+	observing = true
+	v, err := h.v.Object().Get(k)
+	observing = false
+	if err != nil || !v.IsObject() || v.Object().Class() != "Array" {
+		return
+	}
+	a := ottoHolder{h.d, v}
+	n := a.length()
+	switch what {
+	case "hole":
+		v.Object().Set(strconv.Itoa(n+1), float64(9)) //nolint:errcheck
+	case "lenUp":
+		v.Object().Set("length", float64(n+2)) //nolint:errcheck
+	case "lenDown":
+		if n > 1 {
+			v.Object().Set("length", float64(1)) //nolint:errcheck
+		}
+	case "named":
+		v.Object().Set("name", float64(9)) //nolint:errcheck
+	case "delIdx":
+		a.del("0")
+	}
 }
 func (h ottoHolder) lock(k string) { h.d.lockFn.Call(otto.UndefinedValue(), h.v, k) } //nolint:errcheck
 func (h ottoHolder) del(k string)  { h.d.del.Call(otto.UndefinedValue(), h.v, k) }    //nolint:errcheck
@@ -366,6 +428,7 @@ var reviveMutTexts = []string{
 	`{"a":1,"b":2,"c":3}`, `{"a":1,"b":2}`, `{"a":1}`, `[1,2,3]`, `[1]`,
 	`{"x":{"a":1,"b":2},"y":{"a":3,"b":4}}`, `[[1,2],[3,4]]`, `{"p":[1,2,3],"q":5}`, `[{"a":1,"b":2},7]`,
 	`{"a":{"a":1,"b":2},"b":2}`, `{"a":[{"a":1,"b":[2,3]}],"b":{"c":null}}`, `[1,[2,[3,{"a":4,"b":5}]]]`,
+	`[[1,2],[3,4],[5]]`, `{"a":[1,2],"b":[3,4]}`, `[[1,2],{"a":[3]},[4,5,6]]`, `[0,[1,2,3]]`,
 }
 
 // forEachMemberOrder calls run with a fresh parse of text for every assignment
@@ -487,7 +550,7 @@ func runReviveMut(r *engine.Run) {
 		}
 	}
 	r.Bound("texts", strconv.Itoa(len(reviveMutTexts)))
-	r.Bound("mutators", strconv.Itoa(len(reviverMutators()))+": {first, firstContainer} x {none, setSelf, delSelf, lockSelf, setSibs, objSibs, deepSibs, lockSibs, delSibs, delOne, addSib} + every x {setSelf, delSelf, lockSelf, setSibs, delSibs, lockSibs}, each x return {same value, 7, undefined}")
+	r.Bound("mutators", strconv.Itoa(len(reviverMutators()))+": {first, firstContainer} x {none, setSelf, delSelf, lockSelf, setSibs, objSibs, deepSibs, lockSibs, delSibs, delOne, addSib, array siblings: hole beyond length / length up / length down / named property / delete index, hole beyond the holder's length} + every x {setSelf, delSelf, lockSelf, setSibs, delSibs, lockSibs}, each x return {same value, 7, undefined}")
 }
 
 // ---------------------------------------------------------------------------
